@@ -1,6 +1,8 @@
 (* C14 — Any layout file is either rejected with a message or runs without crashing.
    Statements only; proofs are in TM.ParserLemmas, TM.OdometerLemmas, TM.ConvertLemmas,
    TM.ExpandLemmas and TM.LoadedWf. *)
+From TM Require BuiltinFacts.
+From TMGen Require Builtins.
 From TM Require Import Base Json RustOps Fancy Mapper Parser Convert RustOpsLemmas ParserLemmas OdometerLemmas ExpandLemmas LoadedWf.
 From TM Require Import MapperTotal.
 
@@ -63,6 +65,16 @@ Theorem C14_odometer_total :
     for_combinations c body s = fold_res (fun s t => body t s) (tuples (c_quant c)) s.
 Proof. intros St. exact (@for_combinations_spec St). Qed.
 Print Assumptions C14_odometer_total.
+
+(* The five built-in layouts (regenerated from default_fancy_layouts.rs on every
+   run, as serde_json parses them) load and can be installed. *)
+Theorem C14_builtin_layouts_load_and_install :
+  forall (n : string) (j : json), In (n, j) TMGen.Builtins.builtin_layouts ->
+    exists L, load j = Ok L /\ for_layout_ok L = true.
+Proof.
+  intros n j H. destruct (BuiltinFacts.builtins_ok n j H) as [L [H1 [H2 _]]]. exists L. split; assumption.
+Qed.
+Print Assumptions C14_builtin_layouts_load_and_install.
 
 Example C14_example :
   tuples [2; 3]%nat = [[0; 0]; [1; 0]; [0; 1]; [1; 1]; [0; 2]; [1; 2]]%nat
